@@ -84,7 +84,10 @@ fn parse_an_b(input: &str) -> Result<FunctionalPosition, NthChildError> {
       Num(has_n) => match c {
         '+' | '-' => return Err(NthChildError::InvalidSyntax),
         '0'..='9' => {
-          num = num * 10 + (c as u8 - b'0') as i32;
+          num = num
+            .checked_mul(10)
+            .and_then(|n| n.checked_add((c as u8 - b'0') as i32))
+            .ok_or(NthChildError::InvalidSyntax)?;
         }
         'n' | 'N' => {
           if has_n {
@@ -159,8 +162,9 @@ struct FunctionalPosition {
 impl FunctionalPosition {
   /// index is 0-based, but output is 1-based
   fn is_matched(&self, index: usize) -> bool {
-    let index = (index + 1) as i32; // Convert 0-based index to 1-based
-    let FunctionalPosition { step_size, offset } = self;
+    let index = (index + 1) as i64; // Convert 0-based index to 1-based
+                                    // i64: `index - offset` must not overflow for offsets near the i32 limits
+    let (step_size, offset) = (&(self.step_size as i64), &(self.offset as i64));
     if *step_size == 0 {
       index == *offset
     } else {
